@@ -136,12 +136,12 @@ func (s *State) assume(f string) {
 }
 
 type Frame struct {
-	fn    *ssa.Function
-	regs  map[ssa.Value]Val
-	top   bool
-	ct    *Contract
-	loops *loopInfo
-	names map[string]ssa.Value // source names of locals (from DebugRef), latest binding on this path
+	fn        *ssa.Function
+	regs      map[ssa.Value]Val
+	top       bool
+	ct        *Contract
+	loops     *loopInfo
+	names     map[string]ssa.Value     // source names of locals (from DebugRef), latest binding on this path
 	loopEntry map[*ssa.BasicBlock]*Env // environment on first entry to a loop header (for at_loop_entry in invariants)
 }
 
@@ -191,32 +191,32 @@ func unsupported(format string, a ...interface{}) {
 // ---------------------------------------------------------------- executor
 
 type Exec struct {
-	prog     *Program
-	u        *Univ
-	cs       *ContractSet
-	fn       *ssa.Function
-	ct       *Contract
-	obls     []*Obligation
-	ncell    int
-	npaths   int
-	havocs   []string
-	inlined  map[string]bool
-	assumed  map[string]bool // contracts of callees used (assumed at call sites)
-	models   map[string]bool // engine models used
-	oldEnv   *Env
-	inputs   []string
-	entrySt  *State
-	paramVal map[string]Val
-	callSeq  map[string]int
-	maxPaths int
-	globFacts map[string]bool
+	prog          *Program
+	u             *Univ
+	cs            *ContractSet
+	fn            *ssa.Function
+	ct            *Contract
+	obls          []*Obligation
+	ncell         int
+	npaths        int
+	havocs        []string
+	inlined       map[string]bool
+	assumed       map[string]bool // contracts of callees used (assumed at call sites)
+	models        map[string]bool // engine models used
+	oldEnv        *Env
+	inputs        []string
+	entrySt       *State
+	paramVal      map[string]Val
+	callSeq       map[string]int
+	maxPaths      int
+	globFacts     map[string]bool
 	callerNoPanic bool
-	warnings []string
-	prune bool
-	nfeas int
-	nextCalls int
-	callers   []*Frame // frames waiting for an inlined callee, outermost first
-	noPanicCond string // entry condition under which panics must be unreachable ("" = always)
+	warnings      []string
+	prune         bool
+	nfeas         int
+	nextCalls     int
+	callers       []*Frame // frames waiting for an inlined callee, outermost first
+	noPanicCond   string   // entry condition under which panics must be unreachable ("" = always)
 }
 
 func (ex *Exec) newCell(t types.Type, name string) *Cell {
@@ -541,7 +541,7 @@ func (ex *Exec) term(fr *Frame, st *State, v ssa.Value) string {
 // ---------------------------------------------------------------- loops
 
 type loopInfo struct {
-	headers map[*ssa.BasicBlock]int              // header -> ordinal
+	headers map[*ssa.BasicBlock]int                      // header -> ordinal
 	body    map[*ssa.BasicBlock]map[*ssa.BasicBlock]bool // header -> blocks
 }
 
